@@ -1,6 +1,6 @@
 SPECIFICATION Spec
 CONSTANT Big = FALSE
-CONSTANT Tiny = FALSE
+CONSTANT Tiny = TRUE
 INVARIANT DeMorgan
 INVARIANT Subtraction
 INVARIANT TransformRoundTrip
